@@ -113,12 +113,14 @@ def avoid(positions, x):
     return x
 
 
-def simulate_reads(gene, copies, depth=20, read_len=60, extra_pseudo=0, name_prefix="r"):
+def simulate_reads(gene, copies, depth=20, read_len=60, extra_pseudo=0, name_prefix="r", weak_extra=True):
     """copies: list of (major, minor or None).  `depth` layers per structural copy.
     returns list of dicts(name, pos, seq, cigar, mapq, qual)"""
     reads = []
     n = 0
+    depths = depth if isinstance(depth, (list, tuple)) else [depth] * len(copies)
     for ci, (major, minor) in enumerate(copies):
+        depth = depths[ci]
         cfg = gene.alleles[major].cn_config
         variants = [m for m in copy_variants(gene, major, minor)]
         indel_spans = []
@@ -130,6 +132,9 @@ def simulate_reads(gene, copies, depth=20, read_len=60, extra_pseudo=0, name_pre
             elif len(m[1]) > 3:
                 indel_spans.append((m[0], m[0] + len(m[1].split(">")[0])))
         for gi in range(len(gene.regions)):
+            # copies beyond the two complete haplotypes are pseudogene-free duplications
+            if gi > 0 and weak_extra and ci >= 2 and gene.cn_configs[cfg].kind.name == "DEFAULT":
+                continue
             for (a, b) in runs_of(gene, cfg, gi):
                 vs = [m for m in variants if gi == 0 and gene.has_coverage(major, m[0]) and a <= m[0] < b]
                 for layer in range(depth):
@@ -151,7 +156,7 @@ def simulate_reads(gene, copies, depth=20, read_len=60, extra_pseudo=0, name_pre
         regs = sorted(gene.regions[1].values(), key=lambda x: x.start)
         a, b = regs[0].start, regs[-1].end
         for k in range(extra_pseudo):
-            for layer in range(depth):
+            for layer in range(depths[0] if depths else 0):
                 phase = (layer * 7919) % read_len
                 s, first = a, True
                 while s < b:
